@@ -313,8 +313,12 @@ func (ctx *parseContext) readNodes() ([]Node, error) {
 			shouldStop = true
 		}
 
+		// If shouldStop is set, the declaration is the last thing in a block
+		// that is closed on the same line ("x { $(m) = v }"): it is not at
+		// top-level even though ctx.nesting is already decremented. Going on
+		// here would continue reading inside of the closed block.
 		if node.Macro {
-			if ctx.nesting != 0 {
+			if ctx.nesting != 0 || shouldStop {
 				return res, ctx.Err("macro declarations are only allowed at top-level")
 			}
 
@@ -329,7 +333,7 @@ func (ctx *parseContext) readNodes() ([]Node, error) {
 			continue
 		}
 		if node.Snippet {
-			if ctx.nesting != 0 {
+			if ctx.nesting != 0 || shouldStop {
 				return res, ctx.Err("snippet declarations are only allowed at top-level")
 			}
 			if len(node.Args) != 0 {
